@@ -765,6 +765,7 @@ impl<'a> Monitor<'a>
                     if x.alive { x.alive = false; x.killed = true; }
                 }
             }
+            Op::TagSys(_) => {}
             Op::Register(a, b, mode) => { self.register(a, &b, mode, issued.token); }
             Op::RegisterNew(variant, b, mode) =>
             {
